@@ -299,6 +299,25 @@ fn candidates(p: &Program) -> Vec<Program> {
         Program::Pipe(p) => pipe_candidates(p).into_iter().map(Program::Pipe).collect(),
         Program::Gen(g) => gen_candidates(g).into_iter().map(Program::Gen).collect(),
         Program::Roll(r) => roll_candidates(r).into_iter().map(Program::Roll).collect(),
+        Program::Typed(t) => {
+            let mut out = vec![];
+            for i in 0..t.script.len() {
+                let mut q = t.clone();
+                q.script.remove(i);
+                out.push(Program::Typed(q));
+            }
+            if t.len > 0 {
+                let mut q = t.clone();
+                q.len -= 1;
+                out.push(Program::Typed(q));
+            }
+            if t.terminal != crate::typed::TTerm::Drain {
+                let mut q = t.clone();
+                q.terminal = crate::typed::TTerm::Drain;
+                out.push(Program::Typed(q));
+            }
+            out
+        },
     }
 }
 
